@@ -943,3 +943,24 @@ def m_once_take(I, c, args, fr):
 @model('OnceLock::into_inner', 'OnceCell::into_inner')
 def m_once_into_inner(I, c, args, fr):
     return args[0].fields[0]
+
+# ---------------------------------------------------------------------------- chrono (the optional feature of mpd_client: Timestamp)
+import re as _re
+_RFC3339 = _re.compile(rb'^(\d{4})-(\d{2})-(\d{2})[Tt ](\d{2}):(\d{2}):(\d{2})(\.\d+)?([Zz]|[+-](\d{2}):(\d{2}))$')
+@model('DateTime::parse_from_rfc3339')
+def m_parse_rfc3339(I, c, args, fr):
+    """Ok(opaque instant) | Err(opaque ParseError); never panics (chrono docs).  Concrete text is decided by the RFC 3339
+    grammar and calendar ranges; for text with symbolic parts both outcomes are explored."""
+    items = as_items(args[0])
+    if all(isinstance(x, int) for x in items):
+        m = _RFC3339.match(bytes(items))
+        good = False
+        if m:
+            y, mo, d, h, mi, sec = (int(m.group(k)) for k in range(1, 7))
+            import calendar
+            good = 1 <= mo <= 12 and 1 <= d <= calendar.monthrange(y, mo)[1] and h <= 23 and mi <= 59 and sec <= 60
+            if good and m.group(9):
+                good = int(m.group(9)) <= 23 and int(m.group(10)) <= 59
+    else:
+        good = I.ctx.choose(2, 'rfc3339') == 0
+    return ok(Opaque('DateTime', 'instant')) if good else err(Opaque('ParseError', 'invalid'))
